@@ -106,6 +106,109 @@ SKIP_T = ("NEWLINE", "NL_CONT_", "COMMENT", "COMMENT_CPP", "COMMENT_MULTI", "COM
           "VBRACE_OPEN", "VBRACE_CLOSE", "IGNORED", "JUNK", "PP_IGNORE")
 
 
+# ---- documented scope of the options: for a catalogue of unambiguous constructs, the option that governs the pair (first
+# token, second token) according to the option's documentation.  The table theorem (space_rules_faithful) shows that a rule
+# returns the option it logs; this catalogue is what says the rule fires for the RIGHT pair.  One construct per entry, every
+# sp_ option forced, the pair is looked up on the entry's own line(s).
+SCOPE_C = [
+("union U { int a; };", "{","int",["sp_inside_braces_struct"]),
+("union U2 { int a; };", ";","}",["sp_inside_braces_struct"]),
+("struct S { int a; };", "{","int",["sp_inside_braces_struct"]),
+("enum E { EA, EB };", "{","EA",["sp_inside_braces_enum"]),
+("enum E2 { EA2, EB2 };", "EB2","}",["sp_inside_braces_enum"]),
+("void f1(void) { int x; x = b + c; }", "b","+",["sp_arith","sp_arith_additive"]),
+("void f2(void) { a = b; }", "a","=",["sp_assign","sp_before_assign"]),
+("void f3(void) { a = b; }", "=","b",["sp_assign","sp_after_assign"]),
+("void f4(void) { if (a == b) c(); }", "a","==",["sp_compare"]),
+("void f5(void) { if (a && b) c(); }", "a","&&",["sp_bool"]),
+("void f6(void) { x = a ? b : c; }", "a","?",["sp_cond_question","sp_cond_question_before","sp_cond_ternary_short"]),
+("void f7(void) { x = a ? b : c; }", "b",":",["sp_cond_colon","sp_cond_colon_before"]),
+("void f8(void) { g(a, b); }", ",","b",["sp_after_comma"]),
+("void f9(void) { g(a , b); }", "a",",",["sp_before_comma"]),
+("void f10(void) { g (a); }", "g","(",["sp_func_call_paren"]),
+("void f11 (int a);", "f11","(",["sp_func_proto_paren"]),
+("void f12 (int a) { }", "f12","(",["sp_func_def_paren"]),
+("void f13(void) { if (a) b(); }", "if","(",["sp_before_sparen"]),
+("void f14(void) { if (a) b(); }", "(","a",["sp_inside_sparen","sp_inside_sparen_open"]),
+("void f15(void) { if (a) b(); }", "a",")",["sp_inside_sparen","sp_inside_sparen_close"]),
+("void f17(void) { x = (a + b) * c; }", "(","a",["sp_inside_paren"]),
+("int *p1;", "int","*",["sp_before_ptr_star","sp_before_unnamed_ptr_star"]),
+("int *p2;", "*","p2",["sp_after_ptr_star"]),
+("void f18(void) { x = *p; }", "*","p",["sp_deref"]),
+("void f19(void) { x = &y; }", "&","y",["sp_addr"]),
+("void f20(void) { x = !a; }", "!","a",["sp_not"]),
+("void f21(void) { x = ~a; }", "~","a",["sp_inv"]),
+("void f22(void) { x = -a; }", "-","a",["sp_sign"]),
+("void f23(void) { i++; }", "i","++",["sp_incdec"]),
+("void f24(void) { arr [1] = 2; }", "arr","[",["sp_before_square"]),
+("void f25(void) { arr[ 1 ] = 2; }", "[","1",["sp_inside_square"]),
+("void f26(void) { x = (int) y; }", ")","y",["sp_after_cast"]),
+("void f27(void) { x = ( int ) y; }", "(","int",["sp_inside_paren_cast"]),
+("void f28(void) { x = sizeof (int); }", "sizeof","(",["sp_sizeof_paren"]),
+("int f29(void) { return (a); }", "return","(",["sp_return_paren"]),
+("void f30(void) { for (i = 0; i < 3; i++) x(); }", ";","i",["sp_after_semi_for","sp_after_semi"]),
+("void f31(void) { for (i = 0 ; i < 3; i++) x(); }", "0",";",["sp_before_semi_for"]),
+("void f32(void) { x = 1 ; }", "1",";",["sp_before_semi"]),
+("void f33(void) { p->m = 1; }", "p","->",["sp_member"]),
+("void f34(void) { s.m = 1; }", "s",".",["sp_member"]),
+("void f35(void) { do { x(); } while (a); }", "}","while",["sp_brace_close_while"]),
+("void f36(void) { if (a) { b(); } else { c(); } }", "}","else",["sp_brace_else"]),
+("void f37(void) { if (a) { b(); } else { c(); } }", "else","{",["sp_else_brace"]),
+("void f38(void)\n{ if (a) { b(); } }", ")","{",["sp_sparen_brace"]),
+("void f39(void) { switch (a) { case 1 : break; } }", "1",":",["sp_before_case_colon"]),
+("void f40(void) { x = a << 2; }", "a","<<",["sp_arith"]),
+("struct B1 { int a : 3; };", "a",":",["sp_before_bit_colon","sp_bit_colon"]),
+("struct B2 { int a : 3; };", ":","3",["sp_after_bit_colon","sp_bit_colon"]),
+("void f41(void) { while (a) b(); }", "while","(",["sp_before_sparen"]),
+("int f42(void) { return a; }", "return","a",["sp_return"]),
+("void f43(void) { x = a * b; }", "a","*",["sp_arith"]),
+("void f44(void) { x = a | b; }", "a","|",["sp_arith"]),
+("void f45(void) { x += 1; }", "x","+=",["sp_assign","sp_before_assign"]),
+]
+SCOPE_CPP = [
+("class A1 : public B { };", "A1",":",["sp_before_class_colon"]),
+("class A2 : public B { };", ":","public",["sp_after_class_colon"]),
+("template <typename T> class C1;", "template","<",["sp_template_angle"]),
+("template < typename T > class C2;", "<","typename",["sp_inside_angle"]),
+("void f1() { a ::b(); }", "a","::",["sp_before_dc"]),
+("void f2() { a:: b(); }", "::","b",["sp_after_dc"]),
+("void f3() { x = new int; }", "new","int",["sp_after_new"]),
+("void f4() { throw (a); }", "throw","(",["sp_throw_paren"]),
+("void f5() { try { a(); } catch (...) { } }", "}","catch",["sp_brace_catch"]),
+("void f6() { try { a(); } catch (...) { } }", "catch","(",["sp_catch_paren"]),
+("namespace N { int a; }", "N","{",["sp_word_brace_ns"]),
+("void f7() { auto l = [] (int a) { return a; }; }", "]","(",["sp_cpp_lambda_square_paren"]),
+("int &r1 = x;", "int","&",["sp_before_byref"]),
+("int &r2 = x;", "&","r2",["sp_after_byref"]),
+("void f8() { x = static_cast<int> (y); }", ">","(",["sp_angle_paren"]),
+("A::A() : b(1) { }", ")",":",["sp_before_constr_colon"]),
+("A::A(int) : c(1) { }", ":","c",["sp_after_constr_colon"]),
+("void f9() { operator + (a); }", "operator","+",["sp_after_operator"]),
+]
+
+
+def scope_sources():
+    out = {}
+    for lang, tab in (("C", SCOPE_C), ("CPP", SCOPE_CPP)):
+        lines, index = [], []
+        for code, t1, t2, allowed in tab:
+            first = len(lines) + 1
+            lines += code.split("\n")
+            index.append((first, len(lines), t1, t2, allowed, code))
+        out[lang] = ("\n".join(lines) + "\n", index)
+    return out
+
+
+def check_scope(lang, recs, findings):
+    text, index = scope_sources()[lang]
+    for first, last, t1, t2, allowed, code in index:
+        got = [r for r in recs if first <= r["l1"] <= last and "".join(map(chr, r["text1"])) == t1 and "".join(map(chr, r["text2"])) == t2]
+        rule = got[-1]["rule"].split(" ")[0] if got else None
+        if rule not in allowed:
+            findings.append(("scope|%s" % allowed[0], "the pair '%s' '%s' of %r is documented to be governed by %s, but do_space() applies %s"
+                             % (t1, t2, code.replace("\n", " "), " / ".join(allowed), rule)))
+
+
 def check_output_gaps(sp, fin, recs, findings):
     """the blanks actually WRITTEN between the two chunks of a decided pair (hook H1: the characters emitted per chunk) against the
     decision space_text() took for it: force = exactly max(1, min) blanks, remove = none, add = at least one.  Decisions are
@@ -219,9 +322,28 @@ def run(rep, build, tier, seed):
             for key, what in findings[:3]:
                 rep.finding(key, "%s [%s, %s]" % (what, os.path.basename(inp), cn),
                             {"kind": "space", "input": inp, "lang": lang, "cfg": ct})
+    # the documented-scope catalogue, every sp_ option forced
+    sdir2 = os.path.join(common.ROOT, "corpus", "c19")
+    for lang, (text, index) in scope_sources().items():
+        fp = os.path.join(sdir2, "scope_%s.%s" % (lang.lower(), "cpp" if lang == "CPP" else "c"))
+        if not os.path.exists(fp) or open(fp).read() != text:
+            rep.unproved("corpus/c19/%s is not the text of the SCOPE table" % os.path.basename(fp), "regenerate it with: python3 -c 'from lib.props import c19; c19.write_scope_files()'")
+            continue
+        wd3 = tempfile.mkdtemp(dir=base)
+        cfgp = os.path.join(wd3, "c.cfg")
+        ct = "".join("%s=force\n" % o for o in opts)
+        open(cfgp, "w").write(ct + QT_OFF)
+        rc_, out, err, prefix = dumps.run_with_dumps(["-q", "-c", cfgp, "-l", lang, "-f", fp], wd3, timeout=60)
+        sf = []
+        check_scope(lang, dumps.parse_sp(prefix + ".0.sp") if rc_ == 0 else [], sf)
+        rep.count(key=("scope", lang), nontrivial=True)
+        rep.validated()
+        for key, what in sf:
+            rep.finding(key, what, {"kind": "space", "input": fp, "lang": lang, "cfg": ct, "scope": True})
     import shutil
     shutil.rmtree(base, ignore_errors=True)
     rep.cov["pairs_checked"] = pairs
+    rep.cov["scope_entries"] = len(SCOPE_C) + len(SCOPE_CPP)
     rep.cov["written_gaps_checked"] = written
     rep.cov["generated"] = {k: v for k, v in ginfo.get("SpaceRules.v", {}).items() if k != "changed"}
     rep.sample({"sites": rep.cov["generated"].get("sites"), "shapes": rep.cov["generated"].get("shapes"), "configs": [c[0] for c in cfgs]})
@@ -284,6 +406,11 @@ def run(rep, build, tier, seed):
     return rep.finish(ps)
 
 
+def write_scope_files():
+    for lang, (text, index) in scope_sources().items():
+        open(os.path.join(common.ROOT, "corpus", "c19", "scope_%s.%s" % (lang.lower(), "cpp" if lang == "CPP" else "c")), "w").write(text)
+
+
 def replay(rp, build):
     by_line = sites()
     with tempfile.TemporaryDirectory(prefix="c19r_", dir=common.WORK) as wd:
@@ -294,6 +421,8 @@ def replay(rp, build):
         vals = dict(l.split("=") for l in rp["cfg"].strip().split("\n"))
         f = []
         check_records(recs, vals, by_line, f, "replay")
+        if rp.get("scope"):
+            check_scope(rp["lang"], recs, f)
         if os.path.exists(prefix + ".0.fin") and os.path.exists(prefix + ".0.out"):
             check_output_gaps(recs, dumps.parse_chunks(prefix + ".0.fin")[2], dumps.parse_out(prefix + ".0.out"), f)
         for k, w in f[:10]:
